@@ -168,11 +168,17 @@ ClientApply ==
            seed0 == IF wiped THEN poll.rseed ELSE cseed
            resp  == IF wiped /\ RefetchOnSeedChange THEN {} ELSE poll.rows
            new   == {r \in resp : ~\E c \in rows0 : c.s = r.s /\ c.id = r.id}    \* exists() -> continue
+           \* every add() prunes first, deletes the subject's previous rows, inserts
            kept  == {c \in rows0 : ~Expired(c.exp) /\ (DeletePrevious => c.s \notin {r.s : r \in new})}
-           added == {[s |-> r.s, id |-> r.id, exp |-> r.exp, kind |-> r.kind, val |-> ClientVerifies(r)] : r \in new}
+           \* ... so an already expired presentation that is added survives only if it is the LAST one added; the
+           \* order is the iteration order of a Go map, i.e. arbitrary
+           dead  == {r \in new : Expired(r.exp)}
+           last  == IF dead = {} THEN {{}}
+                    ELSE {{x} : x \in dead} \cup (IF new \ dead # {} THEN {{}} ELSE {})
+           Mk(r) == [s |-> r.s, id |-> r.id, exp |-> r.exp, kind |-> r.kind, val |-> ClientVerifies(r)]
        IN IF new = {}
           THEN /\ crows' = rows0 /\ cts' = cts0 /\ cseed' = seed0
-          ELSE /\ crows' = kept \cup added
+          ELSE /\ \E sv \in last : crows' = kept \cup {Mk(r) : r \in (new \ dead) \cup sv}
                /\ IF poll.rts = 0
                   THEN \* add(..., timestamp = 0) takes the SERVER branch: own increments, invented seed
                        /\ cts' = cts0 + Cardinality(new)
